@@ -605,6 +605,14 @@ func (ndb *nodeDB) DeleteVersionsFrom(fromVersion int64) error {
 	if latest < fromVersion {
 		return nil
 	}
+	first, err := ndb.getFirstVersion()
+	if err != nil {
+		return err
+	}
+	// When no version survives, every node record is garbage, also those below fromVersion: a root
+	// shared with pruned versions lives on under the version that created it and would be taken
+	// for the latest version on the next start.
+	deleteAll := fromVersion <= first
 
 	ndb.mtx.Lock()
 	for v, r := range ndb.versionReaders {
@@ -670,6 +678,9 @@ func (ndb *nodeDB) DeleteVersionsFrom(fromVersion int64) error {
 		// next start.
 		fromVersion = 1
 	}
+	if deleteAll {
+		fromVersion = 1
+	}
 	if err = ndb.deleteRange(nodeKeyPrefixFormat.KeyInt64(fromVersion), nodeKeyPrefixFormat.KeyInt64(latest+1), ndb.batch.Delete); err != nil {
 		return err
 	}
@@ -690,6 +701,12 @@ func (ndb *nodeDB) DeleteVersionsFrom(fromVersion int64) error {
 		}
 	}
 
+	if deleteAll {
+		// the store is empty: the next reader looks both versions up again
+		ndb.resetFirstVersion(0)
+		ndb.resetLatestVersion(0)
+		return nil
+	}
 	ndb.resetLatestVersion(dumpFromVersion - 1)
 
 	return nil
